@@ -63,7 +63,7 @@ class RotatorProfile(HeapProfile):
     name = "rotator"
     invariants = False
     predict = ("mesh", "array", "valid", "vdims", "mapping", "unit")
-    required_probes = ("non_commuting_pair", "clear", "rotate_after_clear", "cmp90", "interior_cells", "outside_cells", "kept_result")
+    required_probes = ("non_commuting_pair", "clear", "rotate_after_clear", "cmp90", "interior_cells", "outside_cells", "kept_result", "refused_rotation", "rotate_after_refused")
     rule = (
         "one case = one seeded history (3-16 steps) on FieldRotator handles over analytic fields (uniform vector / linear scalar) "
         "on 3-d meshes: rotate with every method (quaternion, matrix, rotation vector, intrinsic/extrinsic Euler angles, vector "
@@ -85,6 +85,7 @@ class RotatorProfile(HeapProfile):
             "p_clear": rng.choice([0.0, 0.15, 0.3]),
             "p_refuse": rng.choice([0.0, 0.1]),
             "lattice": rng.random() < 0.3,
+            "p_bad": rng.choice([0.0, 0.1, 0.2]),
         }
 
     def gen_op(self, rng, st):
@@ -145,6 +146,18 @@ class RotatorProfile(HeapProfile):
         if rm.nrot == 0 and rm.content and rm.content["t"] == "uniform" and rng.random() < 0.06:
             return {"op": "Q.rotate", "on": s, "method": "align_vector", "args": {}, "antiparallel": True, "sa": rng.choice([1.0, 2.0, 0.5]), "sb": rng.choice([1.0, 3.0])}
         m, args = draw_rotation(rng, lattice=cfg.get("lattice", False) and rng.random() < 0.7)
+        if rng.random() < cfg.get("p_bad", 0.0):
+            # a refused request between performed rotations (non-trivial rotation, so that
+            # counting it would show in the next result)
+            why = rng.choice(["n_zero", "n_zero", "n_negative", "n_length", "method"])
+            n = [rng.randint(2, 6) for _ in range(3)]
+            if why == "n_zero":
+                n[rng.randrange(3)] = 0
+            elif why == "n_negative":
+                n[rng.randrange(3)] = -rng.randint(1, 4)
+            elif why == "n_length":
+                n = n[:2]
+            return {"op": "Q.rotate_bad", "on": s, "method": m, "args": args, "n": n, "why": why, "fault": "rejected_args"}
         o = {"op": "Q.rotate", "on": s, "method": m, "args": args}
         if rng.random() < 0.25:
             o["n"] = st.extra.setdefault("fixed_n", [rng.randint(2, 8) for _ in range(3)]) if rng.random() < 0.6 else [rng.randint(2, 8) for _ in range(3)]
